@@ -44,6 +44,10 @@ def base_cases(r, tier):
     # T1: many small files and links in nested directories
     spec = [{"p": "src", "k": "d"}] + tree.gen_tree(r, depth=3, fanout=5, kinds=("f", "f", "f", "d", "l"), prefix="src", nonutf8=True,
                                                     max_entries=45, modes=True, mtimes=True, sizes=[0, 1, 50, 3000, 5000])
+    dirs_ = [e["p"] for e in spec if e["k"] == "d"]
+    for k in range(6):
+        spec.append({"p": r.choice(dirs_) + "/node%d" % k, "k": r.choice(["fifo", "sock"]), "mode": r.choice([0o644, 0o600, 0o666])})
+    spec.sort(key=lambda e: (e["p"].count("/"), e["p"]))      # nodes interleave with the directories around them
     out.append({"name": "many-small", "spec": spec, "pre": [], "bs": "4096", "expect_fail": False})
     # T2: multi-block files
     spec = [{"p": "src", "k": "d"}, F("src/m1", 5 * 4096 + 17, 1, mode=0o640, mtime_ns=1_111_111_111_000_000_001),
@@ -63,6 +67,7 @@ def base_cases(r, tier):
     out.append({"name": "collision", "spec": spec4, "pre": pre4, "bs": "4096", "expect_fail": True})
     out.append({"name": "multi-block-no-cfr", "spec": copy.deepcopy(spec), "pre": [], "bs": "4096", "expect_fail": False,
                 "rules": [{"id": "r", "sys": "copy_file_range", "under": "@ROOT@", "action": "fault", "errno": 18}]})
+    out.append({"name": "multi-block-options", "spec": copy.deepcopy(spec), "pre": [], "bs": "4096", "expect_fail": False, "opts": ["--no-perms", "--fsync", "--reflink", "never"]})
     if tier == "thorough":
         for k in range(4):
             sp = [{"p": "src", "k": "d"}] + tree.gen_tree(r, depth=3, fanout=4, kinds=("f", "f", "d", "l"), prefix="src", nonutf8=True,
@@ -82,7 +87,7 @@ def gen_cases(tier, seed):
                 sch["sched_seed"] = r.randrange(1 << 30)
                 w = [1, 2, 4, 16, 64][k % 5] if k < 5 else r.choice([1, 2, 3, 4, 8, 16, 64])
                 yield {"group": gid, "name": bc["name"], "spec": bc["spec"], "pre": bc["pre"], "driver": driver, "workers": w,
-                       "args": ["--driver", driver, "-w", str(w), "--block-size", bc["bs"], "-r", "src", "dst"], "plan": sch,
+                       "args": ["--driver", driver, "-w", str(w), "--block-size", bc["bs"]] + bc.get("opts", []) + ["-r", "src", "dst"], "plan": sch,
                        "expect_fail": bc["expect_fail"], "fs": "ext4", "rules": bc.get("rules", [])}
         gid += 1
 
@@ -108,7 +113,7 @@ def run_case(case):
         tree.materialize(root, tree.fix_mtimes(case["spec"]))
         tree.materialize(root, tree.fix_mtimes(case["pre"], 1_500_000_000_000_000_000))
         plan = dict(case["plan"])
-        plan.update({"log_mode": "full", "pct_horizon": 600, "sched_cap_us": 3000,
+        plan.update({"log_mode": "full", "pct_horizon": 600, "sched_cap_us": 3000, "umask": 0o027,
                      "rules": [dict(x, under=root + "/") for x in case.get("rules", [])]})
         run = core.run_xcp(sb, case["args"], plan)
         if run.verdict != "exited":
